@@ -990,6 +990,9 @@ func (c *specCtx) call(n *ast.CallExpr) (sv, error) {
 		case *types.Array:
 			return c.mk(tInt, e.sc.idxLit(u.Len())), nil
 		case *types.Map:
+			if !strings.Contains(v.S, "q.") {
+				e.mapLenFacts(c.st, v.S) // a map has at least 0 entries, the nil map none
+			}
 			return c.mk(tInt, e.mapLen(c.st, v.S)), nil
 		case *types.Basic:
 			if isString(v.T) {
